@@ -300,6 +300,8 @@ type HistoryRun struct {
 	TxnWrites  map[int][]string // txn -> row images (table|rowkey) it wrote, for classification
 	TxnTouched map[int][]string // txn -> committed row images it updated or deleted
 	Committed  map[int]bool
+	// Label: a fixed context label for the monitor (traces without statement marks, e.g. a recovery)
+	Label string
 }
 
 func stmtKindTag(s *Stmt) string {
